@@ -2,6 +2,8 @@ import Lean.Data.Json
 import Std.Data.HashMap
 import EduceModel.Spec.Eq
 import EduceModel.Spec.Cmp
+import EduceModel.Spec.Hash
+import EduceModel.Spec.Clone
 /-
   Line-protocol driver: one JSON array per line in, one JSON array per line out.
   The executable definitions it runs are exactly the ones the theorems are about
@@ -20,6 +22,8 @@ structure FieldJ where
   ty : String
   eq : EqField
   ord : OrdField
+  hash : HashField
+  clone : CloneField
   deriving Inhabited
 
 structure VariantJ where
@@ -33,12 +37,19 @@ structure DefJ where
   isEnum : Bool
   variants : Array VariantJ
   ordMode : String     -- "ord" | "partialord" | "both"
+  copy : Bool          -- Copy educed next to Clone
+  isUnion : Bool
   deriving Inhabited
 
 structure St where
   rel : Std.HashMap (String × Nat × Nat) Rel := {}
   methB : Std.HashMap (String × Nat × Nat × Nat) Bool := {}   -- (kind, id, a, b) ↦ bool result
   methO : Std.HashMap (String × Nat × Nat × Nat) (Option Ord3) := {}
+  hashV : Std.HashMap (String × Nat) (List String) := {}      -- (ty, a) ↦ writes of the leaf's own Hash
+  methH : Std.HashMap (Nat × Nat) (List String) := {}         -- (id, a) ↦ writes of the hash method
+  cloneV : Std.HashMap (String × Nat) Nat := {}               -- (ty, a) ↦ id of a.clone()
+  cloneF : Std.HashMap (String × Nat × Nat) Nat := {}         -- (ty, dst, src) ↦ id of dst after clone_from
+  methV : Std.HashMap (String × Nat × Nat) Nat := {}          -- (kind, id, a) ↦ id of m(a)
   defs : Std.HashMap Nat DefJ := {}
 
 def jstr (j : Json) : String := (j.getStr?).toOption.getD ""
@@ -59,16 +70,22 @@ def parseField (j : Json) : FieldJ :=
   let name := (jstr (jfield j "name")).toList
   let e := jfield j "eq"
   let o := jfield j "ord"
+  let h := jfield j "hash"
+  let c := jfield j "clone"
   { name := name, ty := jstr (jfield j "ty"),
     eq := { name := name, ignore := jbool (jfield e "ignore"),
             method := (jopt (jfield e "method")).map jnat },
     ord := { name := name, ignore := jbool (jfield o "ignore"),
              method := (jopt (jfield o "method")).map jnat,
-             rank := (jopt (jfield o "rank")).map jint } }
+             rank := (jopt (jfield o "rank")).map jint },
+    hash := { name := name, ignore := jbool (jfield h "ignore"), method := (jopt (jfield h "method")).map jnat },
+    clone := { name := name, method := (jopt (jfield c "method")).map jnat } }
 
 def parseDef (j : Json) : DefJ :=
   { isEnum := jstr (jfield j "kind") == "enum",
     ordMode := jstr (jfield j "ordmode"),
+    copy := jbool (jfield j "copy"),
+    isUnion := jstr (jfield j "kind") == "union",
     variants := (jarr (jfield j "variants")).map fun v =>
       { name := (jstr (jfield v "name")).toList, shape := parseShape (jstr (jfield v "shape")),
         disc := (jopt (jfield v "disc")).map jint,
@@ -84,6 +101,19 @@ def DefJ.ordType (d : DefJ) : OrdType :=
   let mk (v : VariantJ) : OrdVariant :=
     { name := v.name, shape := v.shape, fields := v.fields.toList.map (·.ord), disc := v.disc }
   if d.isEnum then .enum (d.variants.toList.map mk)
+  else .struct (mk (d.variants[0]!))
+
+def DefJ.hashType (d : DefJ) : HashType :=
+  let mk (v : VariantJ) : HashVariant :=
+    { name := v.name, shape := v.shape, fields := v.fields.toList.map (·.hash) }
+  if d.isEnum then .enum (d.variants.toList.map mk)
+  else .struct (mk (d.variants[0]!))
+
+def DefJ.cloneType (d : DefJ) : CloneType :=
+  let mk (v : VariantJ) : CloneVariant :=
+    { name := v.name, shape := v.shape, fields := v.fields.toList.map (·.clone) }
+  if d.isUnion then .union
+  else if d.isEnum then .enum (d.variants.toList.map mk)
   else .struct (mk (d.variants[0]!))
 
 def DefJ.tyOf (d : DefJ) (p : Pos) : String :=
@@ -102,6 +132,29 @@ def St.ordOps (st : St) (d : DefJ) : OrdOps Nat :=
     pcmp := fun p x y => ((st.rel.get? (d.tyOf p, x, y)).map (·.pcmp)).getD none,
     cmpM := fun m x y => ((st.methO.get? ("cmp", m, x, y)).getD none).getD .eq,
     pcmpM := fun m x y => (st.methO.get? ("pcmp", m, x, y)).getD none }
+
+def St.hashOps (st : St) (d : DefJ) : HashOps Nat String :=
+  { hash := fun p x => (st.hashV.get? (d.tyOf p, x)).getD ["?"],
+    method := fun m x => (st.methH.get? (m, x)).getD ["?"] }
+
+def St.cloneOps (st : St) (d : DefJ) : CloneOps Nat :=
+  { clone := fun p x => (st.cloneV.get? (d.tyOf p, x)).getD 999,
+    cloneFrom := fun p x y => (st.cloneF.get? (d.tyOf p, x, y)).getD 999,
+    method := fun m x => (st.methV.get? ("clone", m, x)).getD 999 }
+
+def showWrites (ws : List (Write String)) : Json :=
+  Json.arr (ws.toArray.map fun w => match w with
+    | .usize n => Json.str ("usize:" ++ toString n)
+    | .leaf s => Json.str s)
+
+def showVal (v : Val Nat) (calls : Nat) : Json :=
+  Json.arr #[Json.num v.variant, Json.arr (v.fields.toArray.map fun (n : Nat) => Json.num n), Json.num calls]
+
+/-- Number of instrumented (`K`-typed) fields of variant `k`: each is cloned by exactly one call. -/
+def DefJ.countK (d : DefJ) (k : Nat) : Nat :=
+  match d.variants[k]? with
+  | some v => (v.fields.toList.filter fun f => f.ty == "K").length
+  | none => 0
 
 def showO3 : Ord3 → String
   | .lt => "lt" | .eq => "eq" | .gt => "gt"
@@ -172,7 +225,72 @@ def handle (st : St) (j : Json) : St × Option Json :=
       let m := (Gen.Ord.body t).map fun bd => Sem.evalCmp ops partial_ t bd x y
       let s := Spec.cmp ops partial_ t x y
       (st, some (Json.arr #[op, a[1]!, a[2]!, a[3]!, a[4]!, a[5]!, showModelCmp m, showOO3 s]))
-  else if op == "methh" || op == "hashv" then (st, none)
+  else if op == "hashv" then
+    ({ st with hashV := st.hashV.insert (jstr a[1]!, jnat a[2]!) ((jarr a[3]!).toList.map jstr) }, none)
+  else if op == "methh" then
+    ({ st with methH := st.methH.insert (jnat a[2]!, jnat a[3]!) ((jarr a[4]!).toList.map jstr) }, none)
+  else if op == "clonev" then
+    ({ st with cloneV := st.cloneV.insert (jstr a[1]!, jnat a[2]!) (jnat a[3]!) }, none)
+  else if op == "clonef" then
+    ({ st with cloneF := st.cloneF.insert (jstr a[1]!, jnat a[2]!, jnat a[3]!) (jnat a[4]!) }, none)
+  else if op == "methv" then
+    ({ st with methV := st.methV.insert (jstr a[1]!, jnat a[2]!, jnat a[3]!) (jnat a[4]!) }, none)
+  else if op == "hash" then
+    -- ["hash", def, va, [fa]] → fed data as a list of strings
+    match st.defs.get? (jnat a[1]!) with
+    | none => (st, some (Json.arr #["error", "unknown def"]))
+    | some d =>
+      let t := d.hashType
+      let x : Val Nat := ⟨jnat a[2]!, natList a[3]!⟩
+      let ops := st.hashOps d
+      let m := match Sem.evalHash ops t (Gen.Hash.body t) x with
+        | some ws => showWrites ws
+        | none => Json.str "unbound"
+      let s := showWrites (Spec.feed ops t x)
+      (st, some (Json.arr #["hash", a[1]!, a[2]!, a[3]!, m, s]))
+  else if op == "eqhash" then
+    -- ["eqhash", def, va, fa, vb, fb]: a == b ⇒ identical fed data (PartialEq educed with the same ignore choices)
+    match st.defs.get? (jnat a[1]!) with
+    | none => (st, some (Json.arr #["error", "unknown def"]))
+    | some d =>
+      let x : Val Nat := ⟨jnat a[2]!, natList a[3]!⟩
+      let y : Val Nat := ⟨jnat a[4]!, natList a[5]!⟩
+      let te := d.eqType
+      let th := d.hashType
+      let e := (Sem.evalEq (st.eqOps d) te (Gen.PartialEq.body te) x y).getD false
+      let hx := Sem.evalHash (st.hashOps d) th (Gen.Hash.body th) x
+      let hy := Sem.evalHash (st.hashOps d) th (Gen.Hash.body th) y
+      let m := !e || (hx == hy)
+      (st, some (Json.arr #["eqhash", a[1]!, a[2]!, a[3]!, a[4]!, a[5]!, Json.bool m, Json.bool true]))
+  else if op == "clone" then
+    match st.defs.get? (jnat a[1]!) with
+    | none => (st, some (Json.arr #["error", "unknown def"]))
+    | some d =>
+      let t := d.cloneType
+      let x : Val Nat := ⟨jnat a[2]!, natList a[3]!⟩
+      let ops := st.cloneOps d
+      let bd := Gen.Clone.body d.copy t
+      let calls := match bd with | .copySelf => 0 | _ => d.countK x.variant
+      let m := match Sem.evalClone ops t bd x with
+        | some v => showVal v calls
+        | none => Json.str "unbound"
+      let scalls := if Spec.bitwise d.copy t then 0 else d.countK x.variant
+      (st, some (Json.arr #["clone", a[1]!, a[2]!, a[3]!, m, showVal (Spec.clone ops d.copy t x) scalls]))
+  else if op == "clonefrom" then
+    match st.defs.get? (jnat a[1]!) with
+    | none => (st, some (Json.arr #["error", "unknown def"]))
+    | some d =>
+      let t := d.cloneType
+      let x : Val Nat := ⟨jnat a[2]!, natList a[3]!⟩
+      let y : Val Nat := ⟨jnat a[4]!, natList a[5]!⟩
+      let ops := st.cloneOps d
+      let bd := Gen.Clone.body d.copy t
+      let calls := match bd with | .copySelf => 0 | _ => d.countK y.variant
+      let m := match Sem.evalCloneFrom ops t bd x y with
+        | some v => showVal v calls
+        | none => Json.str "unbound"
+      let scalls := if Spec.bitwise d.copy t then 0 else d.countK y.variant
+      (st, some (Json.arr #["clonefrom", a[1]!, a[2]!, a[3]!, a[4]!, a[5]!, m, showVal (Spec.cloneFrom ops d.copy t x y) scalls]))
   else (st, some (Json.arr #["error", Json.str ("unknown op " ++ op)]))
 
 partial def loop (h : IO.FS.Stream) (out : IO.FS.Stream) (st : St) : IO Unit := do
